@@ -77,6 +77,7 @@ def run(ck):
     b = ck.build('plain')
     ck.gen(['gen_nvmconsts', 'gen_runnerflags'])
     ck.prove()
+    nvmlib.coqchk(ck)
     ref = ck.nvref('c10')
     probe = ck.probe('nvm_probe.c', 'asan')
     rng = ck.rng
@@ -93,7 +94,7 @@ def run(ck):
     descs += ['0 0', 'ffffffff ffffffff', '1 0 ; s -', '1 0 ; s - ; s -', '0 0 ; c 00', '0 0 ; f 0 0 0 0 0 0', '0 0 ; d 0 0',
               '0 0 ; i 0 0 0 0 -', '0 0 ; i 0 0 3 1 null', '0 0 ; i ffffffff ffffffff ffff ff ' + 'ab' * 0xffff,
               '3 1 ; s 6d61696e ; s 6d61696e ; s 6d61696e00 ; s 00 ; c 01 ; c 02 ; f ffffffff ffff ffffffff ffffffff ffff ffff']
-    n = 6000 if ck.thorough else 1500
+    n = 25000 if ck.thorough else 1500
     descs += [nvmlib.gen_desc(rng, big=(i % 50 == 0)) for i in range(n)]
     lines = ['rt ' + x for x in descs]
     impl, prc, perr = nvmlib.probe_lines(probe, lines)
